@@ -47,7 +47,7 @@ def family_result(name, tier):
     merged = vlib.merge_streams([out for _, out, _ in rjobs], os.path.join(wdir, name + ".all.ndjson"))
     for _, out, _ in rjobs:
         os.remove(out)
-    total = vlib.judge_file(merged, wdir, module=fam.get("judge", "Judge"))
+    total = vlib.judge_file(merged, wdir, module=fam.get("judge", "Judge"), marker=fam.get("shard_marker"))
     log("[%s] judged %d events in %.1fs: %s" % (name, total.events, time.time() - t2, dict(total.by_diag)))
     shutil.rmtree(wdir, ignore_errors=True)
     total.wall = time.time() - t0
@@ -458,6 +458,56 @@ def parse_extra(prop, tier, total, bads, design):
             raise
 
 
+# ---------------------------------------------------------------------------------------------
+# static family (C11): TLC-simulated programs replayed on real static_number objects, judged by JudgeMachine
+
+def static_programs(tier):
+    """programs from `tlc -simulate` on gen/GenPrograms.tla (seeded by VERIF_SEED), de-duplicated and sampled"""
+    import random
+    n = 1500 if tier == "quick" else 40000
+    d = os.path.join(vlib.BUILD, "gen")
+    os.makedirs(d, exist_ok=True)
+    key = vlib.sha(open(os.path.join(vlib.SPEC, "gen", "GenPrograms.tla")).read(), open(os.path.join(vlib.SPEC, "gen", "GenPrograms.cfg")).read(),
+                   vlib.seed(), n)
+    path = os.path.join(d, "programs-%s.json" % key)
+    if os.path.exists(path):
+        return path
+    raw = path + ".raw%d" % os.getpid()
+    if os.path.exists(raw):
+        os.remove(raw)
+    sims = 400 if tier == "quick" else 12000
+    rc, out = vlib.run_tlc(os.path.join(vlib.SPEC, "gen", "GenPrograms.cfg"), os.path.join(vlib.SPEC, "gen", "GenPrograms.tla"),
+                           env={"OUT": raw}, tag="genprog", timeout=1200,
+                           extra=["-simulate", "num=%d" % sims, "-depth", "8", "-seed", str(vlib.seed())])
+    if not os.path.exists(raw):
+        raise vlib.MachineryError("GenPrograms produced nothing:\n" + out[-2000:])
+    seen, progs = set(), []
+    with open(raw) as f:
+        for line in f:
+            try:
+                p = json.loads(json.loads(line))
+            except ValueError:
+                continue
+            k = json.dumps(p, separators=(",", ":"))
+            if k not in seen:
+                seen.add(k)
+                progs.append(k)
+    os.remove(raw)
+    random.Random(vlib.seed()).shuffle(progs)
+    with open(path + ".tmp", "w") as f:
+        f.write("\n".join(progs[:n]) + "\n")
+    os.replace(path + ".tmp", path)
+    return path
+
+
+def static_jobs(tier):
+    progs = static_programs(tier)
+    jobs = [dict(src="h_static.cpp", cc="gcc", tag="static-gcc-%d" % m, defines=["MENU=%d" % m], env={"VERIF_PROGRAMS": progs}) for m in range(4)]
+    m = vlib.seed() % 4
+    jobs.append(dict(src="h_static.cpp", cc="clang", tag="static-clang-%d" % m, defines=["MENU=%d" % m], env={"VERIF_PROGRAMS": progs}))
+    return jobs
+
+
 def math_jobs(tier):
     jobs = [dict(src="h_math.cpp", cc="gcc", tag="math-gcc-%d" % k, defines=["MATH_SET=%d" % k]) for k in range(6)]
     jobs.append(dict(src="h_math.cpp", cc="clang", tag="math-clang-%d" % (vlib.seed() % 3), defines=["MATH_SET=%d" % (vlib.seed() % 3)]))
@@ -472,6 +522,7 @@ def wide_jobs(tier):
 
 
 FAMILIES = {
+    "static": dict(jobs=static_jobs, attr=lambda kind, op, tag, diag: ["C11"], judge="JudgeMachine", shard_marker='"e":"StReset"'),
     "math": dict(jobs=math_jobs, attr=lambda kind, op, tag, diag: ["C20"], record_timeout=1800),
     "parse": dict(jobs=parse_jobs, attr=lambda kind, op, tag, diag: ["C15"]),
     "native": dict(jobs=native_jobs, attr=lambda kind, op, tag, diag: ["C12"]),
@@ -607,6 +658,20 @@ CHECKS = {
                "operator~ and mixed-width operators do not compile for multi-limb wide_integer and are not exercised; the "
                "number of operand pairs per type is bounded (BigInt judging of 2048-bit quotients is slow); comparisons of "
                "wide_integer (C03's clause) are judged here"),
+    "C11": chk(["static"], [],
+               "events = steps of TLC-simulated programs (gen/GenPrograms: 7 steps of Load / d := a op b over a register file of "
+               "4 typed numbers, -seed VERIF_SEED, de-duplicated, 1500 programs quick / 40000 thorough) executed by an interpreter "
+               "on real static_number / static_integer objects for 4 type menus (nearest+saturated, nearest+throwing, "
+               "neg_inf+trapping static_numbers with digits 4..100 and exponents -50..6; tie_to_pos_inf+saturated "
+               "static_integers with int8 narrowest); the whole register file is logged after every step",
+               "TLA+ state machine (CnlMachine: register file, actions Reset / Load / Step, expected result = exact operator "
+               "result, rounding conversion by the destination's mode, overflow reaction by its tag) and action-by-action trace "
+               "validation by TLC (JudgeMachine carries the register file from line to line; a step must start from the state "
+               "the spec computed, may change only its destination, and must store the expected value or signal overflow)",
+               "histories of operations feeding each other: no step may produce a different value without an overflow signal, "
+               "throw/trap must leave the destination untouched, no other register may change.",
+               "mixed narrowest types / mixed tags within one expression do not compile in the library and are not exercised; "
+               "comparisons and conversions to built-ins inside histories are covered by C03/C04 families only"),
     "C12": chk(["native", "overflow"], [],
                "events = wrapper expression next to the bare built-in expression for wrapper nestings {scaled<_,0>, "
                "overflow_integer<_,native>, rounding_integer<_,native>, scaled<overflow<rounding>>, overflow<rounding>} x "
